@@ -4,9 +4,11 @@
       degree of a name = left fold of the aggregation over its occurrences), type inference, Tsukamoto needs
       monotonic terms, insertion of a group that leaves the loop state unchanged;
    2. over R: weighted average / sum closed forms, the average of constants lies between them;
-   3. over ER (reals + inf + NaN, IEEE special-value rules): NaN exactly when empty or all weights zero (for
-      finite z), a zero-degree activation is neutral when its z is finite — and NOT in general (F4): a
-      Tsukamoto term whose z(0) is infinite (Concave, Sigmoid) turns the output into NaN. *)
+   3. over ER (reals + inf + NaN, IEEE special-value rules): NaN exactly when empty or all weights zero (z finite
+      wherever the weight is not zero), a zero-degree activation is neutral whatever its z — thanks to the guard
+      `np.where(w == 0.0, 0.0, w * z)` (`wcontrib`) of the repair of finding F4; the loop WITHOUT the guard
+      (`wloop_unguarded`, the pinned code before the repair) is shown not to have that property: a Tsukamoto term
+      whose z(0) is infinite (Concave, Sigmoid) turned the output into NaN. *)
 From Coq Require Import ZArith Reals Bool List String Lra Lia Psatz PrimFloat.
 From VF Require Import Num NumR NumER NumF GenNorm GenTerm SpecNorm NormR NormLaws Core Weighted.
 Import ListNotations.
@@ -315,7 +317,7 @@ Section Generic.
   (* a group whose step leaves the state unchanged can be inserted anywhere *)
   Lemma wloop_insert_neutral ty X g0 Y st z :
     term_value tm tt ty (a_term g0) (a_degree g0) = Ok z ->
-    (forall x : T, add x (mul (a_degree g0) z) = x) -> (forall x : T, add x (a_degree g0) = x) ->
+    (forall x : T, add x (wcontrib (a_degree g0) z) = x) -> (forall x : T, add x (a_degree g0) = x) ->
     wloop tm tt ty (X ++ g0 :: Y) st = wloop tm tt ty (X ++ Y) st.
   Proof.
     intros Hz H1 H2. rewrite !wloop_app. destruct (wloop tm tt ty X st) as [[ws wt]|e]; cbn [bind]; [|reflexivity].
@@ -456,6 +458,13 @@ Section OverR.
   Lemma one_R : (one : R) = 1.
   Proof. unfold one. unR. f_equal. Qed.
 
+  (* over R the guard is invisible: 0 * z = 0 *)
+  Lemma wcontrib_R (w z : R) : wcontrib w z = w * z.
+  Proof.
+    unfold wcontrib, where_. rewrite zero_R. change (eqb w 0) with (Reqb w 0).
+    destruct (Reqb_spec w 0) as [->|_]; [ring|reflexivity].
+  Qed.
+
   Section Loop.
     Variables tm tt : term R -> R -> result R.
 
@@ -467,7 +476,7 @@ Section OverR.
       - cbn [group_values] in H. cbn [wloop].
         destruct (term_value tm tt ty (a_term g) (a_degree g)) as [z|]; cbn [bind] in *; [|discriminate].
         destruct (group_values tm tt ty G) as [zs'|] eqn:E; cbn [bind] in H; [|discriminate]. injection H as <-.
-        rewrite (IH zs' _ eq_refl). cbn [fst snd sum_wz sum_w]. unR. f_equal. f_equal; ring.
+        rewrite (IH zs' _ eq_refl). cbn [fst snd sum_wz sum_w]. rewrite wcontrib_R. unR. f_equal. f_equal; ring.
     Qed.
 
     Lemma winit_R l : winit l = (0, 0) :> R * R.
@@ -632,24 +641,50 @@ Section OverER.
     match G, zs with g :: G', z :: zs' => toR (a_degree g) * toR z + sum_wzE G' zs' | _, _ => 0 end.
   Definition finite (x : ER) : Prop := exists r, x = Fin r.
 
+  (* the guarded product *)
+  Lemma wcontrib_zero_ER z : wcontrib (Fin 0) z = Fin 0.
+  Proof.
+    unfold wcontrib, where_. rewrite zero_ER. change (eqb (Fin 0) (Fin 0)) with (Reqb 0 0).
+    destruct (Reqb_spec 0 0) as [_|H]; [reflexivity|now contradiction H].
+  Qed.
+  Lemma wcontrib_fin_ER r z : wcontrib (Fin r) (Fin z) = Fin (r * z).
+  Proof.
+    unfold wcontrib, where_. rewrite zero_ER. change (eqb (Fin r) (Fin 0)) with (Reqb r 0).
+    destruct (Reqb_spec r 0) as [->|_]; [f_equal; ring|reflexivity].
+  Qed.
+  Lemma wcontrib_ER r z : (r <> 0 -> finite z) -> wcontrib (Fin r) z = Fin (r * toR z).
+  Proof.
+    intros H. destruct (Req_dec r 0) as [->|Hr].
+    - rewrite wcontrib_zero_ER. f_equal. ring.
+    - destruct (H Hr) as (rz & ->). apply wcontrib_fin_ER.
+  Qed.
+  (* a group and its z: finite non-negative weight, and z finite unless the weight is zero *)
+  Definition wz_ok (g : activated ER) (z : ER) : Prop := exists r, a_degree g = Fin r /\ 0 <= r /\ (r <> 0 -> finite z).
+
   Section Loop.
     Variables tm tt : term ER -> ER -> result ER.
 
     Lemma wloop_ER ty G : forall zs x y, group_values tm tt ty G = Ok zs ->
-      Forall finite zs -> (forall g, In g G -> finite (a_degree g)) ->
+      Forall2 wz_ok G zs ->
       wloop tm tt ty G (Fin x, Fin y) = Ok (Fin (x + sum_wzE G zs), Fin (y + sum_wE G)).
     Proof.
-      induction G as [|g G IH]; intros zs x y H Fz Fw.
+      induction G as [|g G IH]; intros zs x y H F.
       - cbn in H. injection H as <-. cbn [wloop sum_wzE sum_wE]. now rewrite !Rplus_0_r.
       - cbn [group_values] in H. cbn [wloop].
         destruct (term_value tm tt ty (a_term g) (a_degree g)) as [z|]; cbn [bind] in *; [|discriminate].
         destruct (group_values tm tt ty G) as [zs'|] eqn:E; cbn [bind] in H; [|discriminate]. injection H as <-.
-        inversion Fz as [|? ? (rz & ->) Fz']; subst.
-        destruct (Fw g (or_introl eq_refl)) as (rw & Ew). rewrite Ew. cbn [fst snd].
-        change (add (Fin x) (mul (Fin rw) (Fin rz))) with (Fin (x + rw * rz)).
+        inversion F as [|? ? ? ? (rw & Ew & Hrw & Hfz) F']; subst.
+        rewrite Ew. cbn [fst snd]. rewrite (wcontrib_ER Hfz).
+        change (add (Fin x) (Fin (rw * toR z))) with (Fin (x + rw * toR z)).
         change (add (Fin y) (Fin rw)) with (Fin (y + rw)).
-        rewrite (IH zs' _ _ eq_refl Fz'); [|intros; apply Fw; now right].
+        rewrite (IH zs' _ _ eq_refl F').
         cbn [sum_wzE sum_wE]. rewrite Ew. cbn [toR]. f_equal. f_equal; f_equal; ring.
+    Qed.
+
+    Lemma wz_ok_degrees G zs : Forall2 wz_ok G zs -> forall g, In g G -> exists r, a_degree g = Fin r /\ 0 <= r.
+    Proof.
+      induction 1 as [|g z G zs (r & Er & Hr & _) _ IH]; intros g' Hg'; [destruct Hg'|].
+      destruct Hg' as [<-|Hg']; [now exists r|now apply IH].
     Qed.
 
     Lemma sum_wE_zero_iff G : (forall g, In g G -> exists r, a_degree g = Fin r /\ 0 <= r) ->
@@ -674,23 +709,23 @@ Section OverER.
       cbn [sum_wzE]. rewrite (H g (or_introl eq_refl)), IH; [cbn; ring|]. intros; apply H; now right.
     Qed.
 
-    (* NaN exactly when there are no activations or all the weights are zero (finite z, non-negative weights) *)
+    (* NaN exactly when there are no activations or all the weights are zero (non-negative finite weights; z finite
+       wherever the weight is not zero — a zero weight may come with an infinite or NaN z) *)
     Theorem nan_iff_ER average ty agg l this_type zs :
       resolve_type ty l = Ok this_type ->
       group_values tm tt this_type (grouped_terms agg l) = Ok zs ->
-      Forall finite zs ->
-      (forall g, In g (grouped_terms agg l) -> exists r, a_degree g = Fin r /\ 0 <= r) ->
+      Forall2 wz_ok (grouped_terms agg l) zs ->
       exists y, weighted_defuzzify tm tt average ty agg l = Ok y /\
                 (isnan y = true <-> l = [] \/ forall g, In g (grouped_terms agg l) -> a_degree g = Fin 0).
     Proof.
-      intros Hty Hz Fz Hw. unfold weighted_defuzzify. rewrite Hty. cbn [bind].
+      intros Hty Hz F. pose proof (wz_ok_degrees F) as Hw. unfold weighted_defuzzify. rewrite Hty. cbn [bind].
       destruct l as [|a0 l0].
       - cbn [grouped_terms fold_left wloop winit bind wfinal fst snd].
         exists NaN. split; [unfold winit; now rewrite wfinal_ER_nan_l|]. split; [now left|reflexivity].
       - set (l := a0 :: l0) in *. unfold winit. fold l. replace (match l with [] => nan | _ :: _ => zero end) with (Fin 0)
           by (unfold l; now rewrite zero_ER).
         rewrite zero_ER.
-        rewrite (wloop_ER _ _ _ _ Hz Fz); [|intros g Hg; destruct (Hw g Hg) as (r & -> & _); now exists r].
+        rewrite (wloop_ER _ _ _ Hz F).
         cbn [bind wfinal fst snd]. rewrite !Rplus_0_l.
         set (G := grouped_terms agg l) in *.
         destruct (Req_dec (sum_wE G) 0) as [E0|N0].
@@ -703,28 +738,28 @@ Section OverER.
           intros [D|A]; [discriminate|]. exfalso. apply N0. now apply sum_wE_zero_iff.
     Qed.
 
-    (* a zero-degree activation of a NEW name is neutral when its z is finite *)
+    (* a zero-degree activation of a NEW name, inserted anywhere, is neutral whatever its z (finite, infinite, NaN);
+       the term must be evaluable (z is computed before the guard: an exception still propagates) *)
     Theorem zero_degree_neutral_new_ER average ty agg l1 a l2 this_type z :
       a_degree a = zero ->
       ~ In (act_name a) (names (l1 ++ l2)) ->
       resolve_type ty (l1 ++ a :: l2) = Ok this_type ->
-      term_value tm tt this_type (a_term a) zero = Ok (Fin z) ->
+      term_value tm tt this_type (a_term a) zero = Ok z ->
       weighted_defuzzify tm tt average ty agg (l1 ++ a :: l2) = weighted_defuzzify tm tt average ty agg (l1 ++ l2).
     Proof.
       intros Hd Hn Hty Hz.
       assert (Hg0 : a_degree (new_group a) = Fin 0).
       { cbn [new_group a_degree]. now rewrite Hd, sanitize_zero_ER, zero_ER. }
-      assert (Hv : term_value tm tt this_type (a_term (new_group a)) (a_degree (new_group a)) = Ok (Fin z)).
+      assert (Hv : term_value tm tt this_type (a_term (new_group a)) (a_degree (new_group a)) = Ok z).
       { rewrite Hg0, <- zero_ER. exact Hz. }
       destruct (l1 ++ l2) as [|b l'] eqn:El.
       - apply app_eq_nil in El. destruct El as [-> ->]. cbn [app].
         unfold weighted_defuzzify. cbn [app] in Hty. rewrite Hty. cbn [bind].
         change (grouped_terms agg [a]) with [new_group a]. cbn [wloop]. rewrite Hv. cbn [bind winit fst snd].
-        rewrite Hg0, zero_ER.
+        rewrite Hg0, zero_ER, wcontrib_zero_ER.
         replace (resolve_type ty []) with (Ok (match ty with WAutomatic => WAutomatic | t => t end) : result wtype)
           by (now destruct ty).
         cbn [bind grouped_terms fold_left wloop fst snd].
-        change (add (Fin 0) (mul (Fin 0) (Fin z))) with (Fin (0 + 0 * z)).
         change (add (Fin 0) (Fin 0)) with (Fin (0 + 0)).
         rewrite wfinal_ER_nan by ring. unfold winit. now rewrite wfinal_ER_nan_l.
       - assert (Hne : l1 ++ l2 <> []) by (rewrite El; discriminate).
@@ -734,9 +769,8 @@ Section OverER.
         { unfold winit. rewrite El. now destruct l1. }
         rewrite W.
         destruct (@grouped_insert_new ER NumER agg l1 a l2 Hn) as (X & Y & -> & ->).
-        rewrite (@wloop_insert_neutral ER NumER tm tt this_type X (new_group a) Y _ (Fin z) Hv); [reflexivity| |].
-        + intros x. rewrite Hg0. change (add x (mul (Fin 0) (Fin z))) with (ERadd x (Fin (0 * z))).
-          apply ERadd_0_r. ring.
+        rewrite (@wloop_insert_neutral ER NumER tm tt this_type X (new_group a) Y _ z Hv); [reflexivity| |].
+        + intros x. rewrite Hg0, wcontrib_zero_ER. change (add x (Fin 0)) with (ERadd x (Fin 0)). now apply ERadd_0_r.
         + intros x. rewrite Hg0. change (add x (Fin 0)) with (ERadd x (Fin 0)). now apply ERadd_0_r.
     Qed.
   End Loop.
@@ -816,20 +850,49 @@ Section IdentityER.
 End IdentityER.
 
 (* ================================================================================================ *)
-(* 5. ... and the refutation of the unconditional statement (finding F4)                             *)
+(* 5. "An activation with degree 0 never changes the result": true of the guarded loop (standard term
+      evaluations), false of the loop without the guard (finding F4, the pinned code before its repair)  *)
 
-Section Refutation.
+(* the loop as it was before `fix: weighted defuzzifiers returned nan when an activation had degree zero and an
+   infinite value`: weighted_sum = weighted_sum + w * z *)
+Section Unguarded.
+  Context {T : Type} {N : Num T}.
+  Variables tm tt : term T -> T -> result T.
+  Fixpoint wloop_unguarded (this_type : wtype) (groups : list (activated T)) (st : T * T) : result (T * T) :=
+    match groups with
+    | [] => Ok st
+    | g :: rest =>
+      let w := a_degree g in
+      do z <- term_value tm tt this_type (a_term g) w;
+      wloop_unguarded this_type rest (add (fst st) (mul w z), add (snd st) w)
+    end.
+  Definition weighted_defuzzify_unguarded (average : bool) (ty : wtype) (agg : option snormx) (l : list (activated T)) : result T :=
+    do this_type <- resolve_type ty l;
+    do st <- wloop_unguarded this_type (grouped_terms agg l) (winit l);
+    Ok (wfinal average st).
+End Unguarded.
+Definition std_defuzzify_unguarded {T : Type} {N : Num T} (tbl : @value_table T) :=
+  weighted_defuzzify_unguarded (std_membership tbl) std_tsukamoto.
+
+Section ZeroDegree.
   Local Open Scope R_scope.
 
-  (* "an activation with degree 0 never changes the result", for an activation of a new name whose term can be
-     evaluated, under the faithful model with the standard term evaluations *)
-  Definition zero_degree_neutral_statement : Prop :=
+  (* for an activation of a new name whose term can be evaluated, under the standard term evaluations *)
+  Definition zero_degree_neutral_for
+      (defuzz : @value_table ER -> bool -> wtype -> option snormx -> list (activated ER) -> result ER) : Prop :=
     forall (tbl : @value_table ER) average ty agg (l1 : list (activated ER)) a l2 this_type,
       a_degree a = zero ->
       ~ In (act_name a) (names (l1 ++ l2)) ->
       resolve_type ty (l1 ++ a :: l2) = Ok this_type ->
       (exists z, term_value (std_membership tbl) std_tsukamoto this_type (a_term a) zero = Ok z) ->
-      std_defuzzify tbl average ty agg (l1 ++ a :: l2) = std_defuzzify tbl average ty agg (l1 ++ l2).
+      defuzz tbl average ty agg (l1 ++ a :: l2) = defuzz tbl average ty agg (l1 ++ l2).
+  Definition zero_degree_neutral_statement : Prop := zero_degree_neutral_for std_defuzzify.
+
+  Theorem zero_degree_neutral_std : zero_degree_neutral_statement.
+  Proof.
+    intros tbl average ty agg l1 a l2 this_type Hd Hn Hty (z & Hz).
+    exact (zero_degree_neutral_new_ER (std_membership tbl) std_tsukamoto average ty agg l1 a l2 Hd Hn Hty Hz).
+  Qed.
 
   Definition w_ramp : activated ER :=
     {| a_term := TShape "a" (Sh_Ramp (Fin 0) (Fin 1) (Fin 1)); a_degree := Fin (1/2); a_implication := None |}.
@@ -843,38 +906,29 @@ Section Refutation.
     end; cbv iota beta.
   Ltac er_cbv := cbv - [Rplus Rmult Rminus Ropp Rdiv Rinv IZR Req_EM_T Rlt_dec Rle_dec Rlt Rle].
 
-  Lemma w_avg_before : std_defuzzify [] true WAutomatic None [w_ramp] = Ok (Fin (1/2)).
-  Proof. er_cbv. repeat er_step. f_equal. f_equal. field. Qed.
-  Lemma w_avg_after : std_defuzzify [] true WAutomatic None [w_ramp; w_concave] = Ok NaN.
-  Proof. er_cbv. repeat er_step. reflexivity. Qed.
-  Lemma w_sum_before : std_defuzzify [] false WAutomatic None [w_ramp] = Ok (Fin (1/4)).
-  Proof. er_cbv. repeat er_step. f_equal. f_equal. field. Qed.
-  Lemma w_sum_after : std_defuzzify [] false WAutomatic None [w_ramp; w_concave] = Ok NaN.
-  Proof. er_cbv. repeat er_step. reflexivity. Qed.
   Lemma w_concave_z0 : std_tsukamoto (a_term w_concave) zero = Ok NInf.
   Proof. er_cbv. repeat er_step. reflexivity. Qed.
   Lemma w_type : resolve_type WAutomatic [w_ramp; w_concave] = Ok WTsukamoto.
   Proof. reflexivity. Qed.
+  (* guarded (the code as it is): the infinite z of the zero-degree Concave is ignored *)
+  Lemma w_avg_before : std_defuzzify [] true WAutomatic None [w_ramp] = Ok (Fin (1/2)).
+  Proof. er_cbv. repeat er_step. f_equal. f_equal. field. Qed.
+  Lemma w_avg_after : std_defuzzify [] true WAutomatic None [w_ramp; w_concave] = Ok (Fin (1/2)).
+  Proof. er_cbv. repeat er_step. f_equal. f_equal. field. Qed.
+  Lemma w_sum_after : std_defuzzify [] false WAutomatic None [w_ramp; w_concave] = Ok (Fin (1/4)).
+  Proof. er_cbv. repeat er_step. f_equal. f_equal. field. Qed.
+  (* unguarded (before the repair): 0 * -inf = NaN *)
+  Lemma u_avg_before : std_defuzzify_unguarded [] true WAutomatic None [w_ramp] = Ok (Fin (1/2)).
+  Proof. er_cbv. repeat er_step. f_equal. f_equal. field. Qed.
+  Lemma u_avg_after : std_defuzzify_unguarded [] true WAutomatic None [w_ramp; w_concave] = Ok NaN.
+  Proof. er_cbv. repeat er_step. reflexivity. Qed.
+  Lemma u_sum_after : std_defuzzify_unguarded [] false WAutomatic None [w_ramp; w_concave] = Ok NaN.
+  Proof. er_cbv. repeat er_step. reflexivity. Qed.
 
-  Theorem zero_degree_neutral_refuted_exists :
-    exists (l : list (activated ER)) (a : activated ER) (average : bool),
-      a_degree a = zero /\ ~ In (act_name a) (names l) /\
-      resolve_type WAutomatic (l ++ [a]) = Ok WTsukamoto /\
-      std_tsukamoto (a_term a) zero = Ok NInf /\
-      std_defuzzify [] average WAutomatic None l = Ok (Fin (1/2)) /\
-      std_defuzzify [] average WAutomatic None (l ++ [a]) = Ok NaN.
-  Proof.
-    exists [w_ramp], w_concave, true. repeat split.
-    - cbn. intros [H|[]]. discriminate.
-    - exact w_concave_z0.
-    - exact w_avg_before.
-    - exact w_avg_after.
-  Qed.
-
-  Theorem zero_degree_neutral_refuted : ~ zero_degree_neutral_statement.
+  Theorem zero_degree_neutral_unguarded_refuted : ~ zero_degree_neutral_for std_defuzzify_unguarded.
   Proof.
     intros H. specialize (H [] true WAutomatic None [w_ramp] w_concave [] WTsukamoto eq_refl).
-    cbn [app] in H. rewrite w_avg_after, w_avg_before in H.
+    cbn [app] in H. rewrite u_avg_after, u_avg_before in H.
     assert (X : Ok NaN = Ok (Fin (1 / 2)) :> result ER); [|discriminate].
     apply H.
     - cbn. intros [E|[]]. discriminate.
@@ -888,14 +942,19 @@ Section Refutation.
   Definition f_concave : activated float :=
     {| a_term := TShape "b" (Sh_Concave 0%float 1%float 1%float); a_degree := 0%float; a_implication := None |}.
   Definition fdefuzz average l := @std_defuzzify float (NumF true []) [] average WAutomatic None l.
+  Definition fdefuzz_unguarded average l := @std_defuzzify_unguarded float (NumF true []) [] average WAutomatic None l.
   Definition res_feq (r : result float) (x : float) : bool := match r with Ok y => feq y x | Err _ => false end.
   Lemma f_avg_before : res_feq (fdefuzz true [f_ramp]) 0.5%float = true.
   Proof. vm_compute. reflexivity. Qed.
-  Lemma f_avg_after : res_feq (fdefuzz true [f_ramp; f_concave]) PrimFloat.nan = true.
+  Lemma f_avg_after : res_feq (fdefuzz true [f_ramp; f_concave]) 0.5%float = true.
   Proof. vm_compute. reflexivity. Qed.
-  Lemma f_sum_after : res_feq (fdefuzz false [f_ramp; f_concave]) PrimFloat.nan = true.
+  Lemma f_sum_after : res_feq (fdefuzz false [f_ramp; f_concave]) 0.25%float = true.
   Proof. vm_compute. reflexivity. Qed.
-End Refutation.
+  Lemma fu_avg_after : res_feq (fdefuzz_unguarded true [f_ramp; f_concave]) PrimFloat.nan = true.
+  Proof. vm_compute. reflexivity. Qed.
+  Lemma fu_sum_after : res_feq (fdefuzz_unguarded false [f_ramp; f_concave]) PrimFloat.nan = true.
+  Proof. vm_compute. reflexivity. Qed.
+End ZeroDegree.
 
 (* ================================================================================================ *)
 (* 6. Final forms of the structural statements                                                       *)
